@@ -328,6 +328,65 @@ pub fn run(run: &Run) {
             .map(|_| (gen_ctx(&mut r, env), ListState::default()))
             .collect();
         check_filter(run, l, if i % 2 == 0 { "C17/always-list" } else { "C17/never-list" }, "builtin", i, eng, &expr, &text, &ctxs);
+        // the same answers after a serialisation round trip (twice), and after clear()
+        let kind = if i % 2 == 0 { "always" } else { "never" };
+        for (vals, lists) in &ctxs {
+            let Ok(want) = refsem_filter(env, &expr, vals, lists) else { continue };
+            let res = guard(|| -> Result<(), String> {
+                let filter = eng.scheme.parse(&text).map_err(|e| e.to_string())?.compile();
+                let ctx0 = eng.ctx(vals, lists);
+                let mut json = serde_json::to_string(&ctx0).map_err(|e| e.to_string())?;
+                for round in 1..=2 {
+                    let mut fresh = ExecutionContext::<()>::new(&eng.scheme);
+                    let mut de = serde_json::Deserializer::from_str(&json);
+                    (&mut fresh).deserialize(&mut de).map_err(|e| format!("deserialise: {}", e))?;
+                    let got = filter.execute(&fresh).map_err(|e| e.to_string())?;
+                    if got != want {
+                        return Err(format!("after round trip {}: {} instead of {}", round, got, want));
+                    }
+                    if fresh != ctx0 {
+                        return Err(format!("after round trip {}: contexts compare unequal", round));
+                    }
+                    let again = serde_json::to_string(&fresh).map_err(|e| e.to_string())?;
+                    if again != json {
+                        return Err(format!("after round trip {}: serialised form changed", round));
+                    }
+                    // clear() and set the same fields again: the built-in lists have no state to lose
+                    fresh.clear();
+                    for (k, f) in env.fields.iter().enumerate() {
+                        if let Some(v) = &vals[k] {
+                            let field = eng.scheme.get_field(&f.name).unwrap();
+                            fresh.set_field_value(field, v.to_lhs_unwrap()).map_err(|e| e.to_string())?;
+                        }
+                    }
+                    let got = filter.execute(&fresh).map_err(|e| e.to_string())?;
+                    if got != want {
+                        return Err(format!("after round trip {} and clear: {} instead of {}", round, got, want));
+                    }
+                    drop(fresh);
+                    json = again;
+                }
+                Ok(())
+            });
+            l.evals += 1;
+            match res {
+                Ok(Ok(())) => l.count("builtin_round_trips"),
+                Ok(Err(e)) => run.violation(
+                    &format!("C17/{}-list/round-trip/{}", kind, e.chars().map(|c| if c.is_ascii_digit() { '#' } else { c }).take(60).collect::<String>()),
+                    "round-trip",
+                    "builtin",
+                    i,
+                    json!({"filter": text, "list": kind, "problem": e}),
+                ),
+                Err(p) => run.violation(
+                    &format!("C17/panic/{}", first_line(&p)),
+                    "no-panic",
+                    "builtin",
+                    i,
+                    json!({"filter": text, "panic": p}),
+                ),
+            }
+        }
         run.distinct(hash_str(&format!("{}|{}", i % 2, text)));
         if i % 701 == 0 {
             run.sample("builtin", 2, || json!({"filter": text, "list": if i % 2 == 0 { "always" } else { "never" }}));
@@ -431,6 +490,31 @@ pub fn run(run: &Run) {
                                 );
                                 return;
                             }
+                            // executions on the deserialised context itself see the
+                            // matcher state that was serialised
+                            for k in 0..3u64 {
+                                let name = LIST_NAMES[r.below(3)].to_string();
+                                let mut g = FilterGen::new(env, GenCfg { calls: false, ..GenCfg::full() }, Rng::derive(seed, "c17-hd", i * 64 + step as u64 * 4 + k));
+                                let Some((expr, _)) = list_cmp(&mut g, &mut r, env, &name) else { continue };
+                                let expr = expr.normalize();
+                                let ftext = print_filter(env, &expr, None);
+                                let want = Eval::new(env, &vals, &model).filter(&expr);
+                                l.evals += 1;
+                                match guard(|| eng.scheme.parse(&ftext).map(|a| a.compile().execute(&fresh))) {
+                                    Ok(Ok(Ok(b))) if b == want => {}
+                                    other => {
+                                        run.violation(
+                                            "C17/history-execution-on-deserialised-context-differs",
+                                            "matcher-state",
+                                            "history",
+                                            i,
+                                            json!({"trace": trace, "filter": ftext, "expected": want, "got": format!("{:?}", other)}),
+                                        );
+                                        return;
+                                    }
+                                }
+                            }
+                            let _ = take_list_log();
                             drop(fresh);
                             ctx = ctx_static;
                             trace.push("serialise+deserialise".into());
